@@ -1,8 +1,67 @@
-BASE_NOTE = ("Trusted: the Go toolchain, encoding/json decoding == gin binding, the harness's reference models (validated by agreement with the "
-             "repaired tree and by the mutation pass in DESIGN.md section 11). Held on the executions produced, not proved.")
-chk("C01", "runtime monitor: well-formedness oracle over generated + exhaustively enumerated tournament executions",
-    "Every accepted response of the workload is checked by an executable well-formedness oracle (entry set, no self/duplicate/dangling links); "
-    "all majority tournament outcome sequences for n<=7 are enumerated, the rest is seeded sampling over methods x biases x tie-heavy profiles.",
-    BASE_NOTE, "DESIGN.md 4/C01")
-for i in range(2, 21):
-    NA["C%02d" % i] = "check under construction in this build phase (monitor designed in DESIGN.md section 4; will be claimed once it runs clean)"
+BASE = ("Trusted: the Go toolchain, encoding/json decoding == gin binding (cross-checked: the same corpora also run over HTTP), and the harness's own "
+        "reference models / oracles (validated by agreement with the repaired tree at several seeds and by the seeded-change pass in DESIGN.md section 11). "
+        "Held on the executions produced, not proved; counts of what was observed are in the evidence file.")
+DEC = " The decorators read unexported parameter structs through reflect+unsafe; a layout change makes cases inconclusive, never violations."
+chk("C01", "runtime monitor: well-formedness oracle over generated executions + exhaustive enumeration of tournament shapes",
+    "Every accepted response of the workload passes an executable well-formedness oracle (entry set = choseToMake + current choice, no self / duplicate / dangling links). "
+    "All majority tournament outcome sequences for n<=7 x policies x currentChoice kinds are enumerated; the rest is seeded sampling over 7 methods x biases x tie-heavy profiles.",
+    BASE, "DESIGN.md 4/C01")
+chk("C02", "runtime monitor: history checker over repeated executions (same process, fresh service processes, permuted histories), byte equality",
+    "Each generated request is executed repeatedly in one process (map iteration re-randomised per range), in several fresh service processes in different orders, "
+    "and over the HTTP and library paths; all accepted observations must be byte-identical and verdicts equal.",
+    BASE + " Wall-clock independence is only exercised by running at different times.", "DESIGN.md 4/C02")
+chk("C03", "runtime monitor: reference-model oracle (defining formulas) on the data observed entering Evaluate (decorator at the PreferenceFunction seam)",
+    "The three utility formulas are recomputed from the very data and parameters the method received (after any bias sequence) and compared with every reported value up to the API's 1e-8 rounding. "
+    "The known weightedSum defect is recognised by its arithmetic signature; any other deviation is a violation.",
+    BASE + DEC, "DESIGN.md 4/C03")
+chk("C04", "runtime monitor: ranking oracle from reported values (exhaustive over {0..3}^n, n<=6) + metamorphic permutation checks",
+    "Order, exact link sets and link closure are recomputed from the reported values for all 5460 small value vectors (through Ranking() and end to end) and for sampled tie-heavy / rounding-boundary instances, each re-run under permutations of the alternatives.",
+    BASE, "DESIGN.md 4/C04")
+chk("C05", "runtime monitor: independent textbook ELECTRE III reference model compared on every execution, with comparison-margin fragility filter",
+    "An independent set-based ELECTRE III implementation is evaluated on the data Evaluate received and must reproduce both index vectors; class numbering and the link rule are checked structurally.",
+    BASE + DEC + " Instances whose smallest non-zero comparison margin is below 1e-9 are skipped and counted.", "DESIGN.md 4/C05")
+chk("C06", "runtime monitor: relational / metamorphic checks (dominance, identity, permutation, power-of-two weight scaling) over executions",
+    "Planted dominated / identical alternatives, random permutations and exact weight scalings; only the relations of the statement are judged (no reference model).",
+    BASE, "DESIGN.md 4/C06")
+chk("C07", "runtime monitor: invariants at the Bias / BiasListener seams (decorator snapshots before/after every Apply) + exhaustive (method x bias-sequence<=2) enumeration",
+    "Every fired bias is observed through decorators: alternatives/split unchanged, criteria change only as reported, values for every criterion, parameters covering every criterion, untouched values bit-identical, stage-to-stage continuity; every in-domain combination must be answered.",
+    BASE + DEC + " In-domain = by construction of the generator (sound lower bound on the criteria count).", "DESIGN.md 4/C07")
+chk("C08", "runtime monitor: relational checks over families of executions (probability grid monotonicity, independence under mutation of other entries, seed-frequency batteries)",
+    "Echo / disabled-equivalence on generated bias lists; for fixed seed and position the firing pattern over a 33-point probability grid must be monotone and its switching point invariant under changes to the other entries; firing frequencies over 6000 seeds within 6 sigma.",
+    BASE, "DESIGN.md 4/C08")
+chk("C09", "runtime monitor: deep snapshots of inputs / reports / handed-on states re-compared through live pointers after the decision; history checker over request sequences",
+    "The decoded request is compared before/after; every bias report and state snapshot taken at return is re-taken from the live objects at the end of the decision; earlier results are re-marshalled after later calls; the probe response is compared after histories of 2..50 requests.",
+    BASE + DEC, "DESIGN.md 4/C09")
+chk("C10", "Go race detector on the real service under concurrent clients + byte comparison with the sequential baseline; race-instrumented in-process run with injected yields",
+    "The -race build of the service answers a corpus sequentially (baseline) and then concurrently (2..64 clients, GOMAXPROCS 1/4/16, identical requests in flight together); responses must equal the baseline, the process must live, the race log must be empty. Overlap counts are measured from call/return timestamps.",
+    BASE + " Interleavings are sampled, not enumerated.", "DESIGN.md 4/C10")
+chk("C11", "runtime monitor: reference tournament (exact) + existence search over admissible search orders / draw resolutions; exhaustive tournament shapes",
+    "The sequential pairwise tournament is replayed on the data Evaluate received: exact equality for fixed order and deterministic policies, existence of an order (current choice first) and draw resolution reproducing the response otherwise; all one-criterion outcome sequences for n<=7 enumerated.",
+    BASE + DEC, "DESIGN.md 4/C11")
+chk("C12", "runtime monitor: sequential reference procedure (exact / existence over tied weights and shuffled alternatives)",
+    "Levels -> criteria heaviest first -> alternatives, stop at one left; the response (order, level index, failed criterion and threshold, links) must equal the reference exactly or for some admissible order.",
+    BASE + DEC, "DESIGN.md 4/C12")
+chk("C13", "runtime monitor: sequential reference procedure (exact / existence over shuffled search order)",
+    "Acceptance per level in search order, leftovers with the index after the last level and worst-of-range thresholds computed over all known alternatives as Evaluate received them.",
+    BASE + DEC, "DESIGN.md 4/C13")
+chk("C14", "runtime monitor: the level iterators wired in main.go driven directly and compared with the documented series (reference model), rejection of out-of-range parameters",
+    "Find/Initialize/HasNext/Next of the four generated sources over a parameter grid and random parameters, degenerate / negative / declared / observed ranges, gain and cost; count, every threshold, termination, rejection.",
+    BASE, "DESIGN.md 4/C14")
+chk("C15", "runtime monitor: omission oracle on decorator snapshots + metamorphic equivalence with the reduced request + seed-frequency batteries",
+    "Count rule, reported/omitted/kept partition, restriction of values and parameters, weakest/strongest against the monitor's own importance measures for all 7 listeners, byte equality with the request that has the criteria deleted, by-probability orderings over 4000 seeds.",
+    BASE + DEC, "DESIGN.md 4/C15")
+chk("C16", "runtime monitor: reversal oracle on decorator snapshots (formula, report, untouched data) + involution over two consecutive reversals",
+    "v -> max+min-v for every known alternative on exactly the selected criteria, report = criteria/ranges/values, everything else identical, range preserved, double reversal restores the data.",
+    BASE + DEC, "DESIGN.md 4/C16")
+chk("C17", "runtime monitor: fatigue oracle on decorator snapshots (ratio recomputed, band / bounded band, identity, report) + direction check on 40-value decisions",
+    "Per event |v'-v| <= |f v| or the bounded band, f=0 identity, criteria / parameters untouched, report = values handed on; both directions of movement must occur.",
+    BASE + DEC, "DESIGN.md 4/C17")
+chk("C18", "runtime monitor: addition oracle on decorator snapshots and listener callbacks (new criterion, parameters, reference criterion, value range / mixing formula) + seed-frequency batteries",
+    "One new gain criterion with an unused id, values for everybody, parameters extended per listener (weight fraction from the observed seeded draw, Choquet power set, thresholds), reference criterion recomputed for importanceRatio, concealed range, mixing formula from the current values; random strategies over 4000 seeds.",
+    BASE + DEC, "DESIGN.md 4/C18")
+chk("C19", "runtime monitor: anchoring oracle on decorator snapshots (reference point, scaled and mapped differences, inline values, applied differences, new-criterion necessary conditions)",
+    "Every quantity of the anchoring report is recomputed from the statement and the snapshot entering the bias; inline: exact values and new - old; newCriterion: convex-combination bound, type, parameters.",
+    BASE + DEC, "DESIGN.md 4/C19")
+chk("C20", "child-process supervision of the real service under a hostile corpus (status / shape oracle per request class, liveness via waitpid + schema endpoint, CPU-time criterion)",
+    "Valid, constraint-catalogue, malformed, mutated, extreme and raw-TCP-fault requests, shuffled, against one process per batch; every answer is classified against its class; the child must stay alive and keep serving the schema endpoint.",
+    BASE + " Level coefficients below 1e-3 are not sent (verdict would depend on a time budget).", "DESIGN.md 4/C20")
